@@ -1,3 +1,7 @@
+import Mrm.Props.C03
 import Mrm.Props.C05
 import Mrm.Props.C07
+import Mrm.Props.C09
+import Mrm.Props.C10
+import Mrm.Props.C11
 import Mrm.Props.C12
